@@ -11,25 +11,27 @@ import (
 )
 
 type Solver struct {
-	bin     string
-	args    []string
-	cmd     *exec.Cmd
-	in      *bufio.Writer
-	inRaw   io.WriteCloser
-	out     *bufio.Reader
-	isEm    map[int]bool
-	emStack []int
-	marks   []int
-	Queries int
-	Sat     int
-	Unsat   int
-	Unknown int
-	Time    time.Duration
-	timeout int // ms
-	fastMs  int
-	isZ3    bool
+	bin       string
+	args      []string
+	cmd       *exec.Cmd
+	in        *bufio.Writer
+	inRaw     io.WriteCloser
+	out       *bufio.Reader
+	isEm      map[int]bool
+	emStack   []int
+	marks     []int
+	Queries   int
+	Sat       int
+	Unsat     int
+	Unknown   int
+	Time      time.Duration
+	timeout   int // ms
+	fastMs    int
+	isZ3      bool
+	deadline  time.Time
 	Fallbacks int
-	LastErr string
+	Stale     []string
+	LastErr   string
 }
 
 func NewSolver(bin string, timeoutMs int, args ...string) *Solver {
@@ -130,7 +132,13 @@ func (s *Solver) check() string {
 		s.in.Flush()
 		line = s.readLine()
 		if line != "sat" && line != "unsat" && !strings.HasPrefix(line, "(error") {
-			fmt.Fprintf(s.in, "(set-option :timeout %d)\n(check-sat-using (then simplify solve-eqs bit-blast sat))\n", s.timeout)
+			to := s.timeout
+			if !s.deadline.IsZero() {
+				if rem := int(time.Until(s.deadline).Milliseconds()); rem < to {
+					to = max(rem, 1000)
+				}
+			}
+			fmt.Fprintf(s.in, "(set-option :timeout %d)\n(check-sat-using (then simplify solve-eqs bit-blast sat))\n", to)
 			s.in.Flush()
 			line = s.readLine()
 			s.Fallbacks++
@@ -192,6 +200,13 @@ func (s *Solver) CheckAndValues(extra *Term, ts []*Term) (string, []*big.Int) {
 		fmt.Fprintf(s.in, "(get-value (%s))\n", smtName(t))
 		s.in.Flush()
 		l := s.readLine()
+		for !strings.HasPrefix(l, "(("+smtName(t)+" ") && !strings.HasPrefix(l, "(error") {
+			// a line that is not the answer to this get-value: record it and resynchronise
+			if len(s.Stale) < 20 {
+				s.Stale = append(s.Stale, l)
+			}
+			l = s.readLine()
+		}
 		// accumulate until parens balance
 		for strings.Count(l, "(") > strings.Count(l, ")") {
 			l += " " + s.readLine()
